@@ -235,6 +235,15 @@ func (s *state) CheckBody(ctx context.Context, hdr textproto.Header, _ buffer.Bu
 				CheckName:    modName,
 			}})
 	}
+	if hdr.FieldsByKey("From").Len() > 1 {
+		return s.c.errAction.Apply(module.CheckResult{
+			Reason: &exterrors.SMTPError{
+				Code:         550,
+				EnhancedCode: exterrors.EnhancedCode{5, 7, 0},
+				Message:      "Multiple From header fields are not allowed",
+				CheckName:    modName,
+			}})
+	}
 	list, err := mail.ParseAddressList(fromHdr)
 	if err != nil || len(list) == 0 {
 		return s.c.errAction.Apply(module.CheckResult{
